@@ -136,15 +136,48 @@ def run(prop, tier, seed):
         # ambient settings of the process: output encodings that cannot represent everything, locale, warnings as errors
         envs = [{"PYTHONIOENCODING": "ascii"}, {"PYTHONIOENCODING": "latin-1"}, {"PYTHONIOENCODING": "cp1252"}, {"LC_ALL": "C", "PYTHONUTF8": "0", "PYTHONCOERCECLOCALE": "0"},
                 {"PYTHONWARNINGS": "error"}, {"PYTHONDEVMODE": "1"}, {"COLUMNS": "20"}, {"TERM": "dumb"}, {"NO_COLOR": "1"}]
-        from common import PYFLAGS
+        from common import PYFLAGS, unesc
+
+        def ascii_only(it):
+            return all(ord(ch) < 128 for a in it["args"] + it.get("stdin", []) for ch in unesc(a))
+
+        def restricts_output(e_):
+            return "PYTHONIOENCODING" in e_ or "LC_ALL" in e_
         for k_, it in enumerate(items):
             if k_ % 4 == 2:
-                it["env"] = envs[(k_ // 4) % len(envs)]
+                e_ = envs[(k_ // 4) % len(envs)]
+                # a stream that cannot represent every character is paired with inputs it can represent: the calculator quotes its input
+                # in error messages, and it cannot be asked to print what the stream refuses - it must not *introduce* such characters
+                if restricts_output(e_) and not ascii_only(it):
+                    e_ = envs[4 + (k_ // 4) % (len(envs) - 4)]
+                it["env"] = e_
             elif k_ % 4 == 0:
                 it["pyflags"] = PYFLAGS[(k_ // 4) % len(PYFLAGS)]          # interpreter options of the calculator's own process
             elif k_ % 8 in (1, 3) and "-v" in it["args"] and it["args"][-1] != "" and not it["stdin"]:
                 # started with a standard descriptor closed (only with -v VECTOR: the interpreter's own input() refuses to run without them)
                 it["close"] = "stdout" if (k_ // 8) % 2 == 0 else "stderr"
+        # ... and, systematically, every ambient setting x every kind of path through the calculator (valid / invalid VECTOR, complete /
+        # cut-short / empty interactive entry; with and without -j): the rotation above leaves most of these pairs to chance
+        kinds = {}
+        for cf in cfgs:
+            kinds.setdefault((cf["vkind"], cf["ikind"] if cf["vkind"] == "absent" else "-", "j" in cf["flags"]), []).append(cf)
+        ambient = [("pyflags", f) for f in PYFLAGS] + [("env", e_) for e_ in envs] + [("close", "stdout"), ("close", "stderr")]
+        nsweep = 0
+        for what, val in ambient:
+            for kd, cands in sorted(kinds.items(), key=lambda kv: str(kv[0])):
+                if what == "close" and kd[0] == "absent":
+                    continue
+                it = concretise(rnd, rnd.choice(cands))
+                for _ in range(20):
+                    if not (what == "env" and restricts_output(val)) or ascii_only(it):
+                        break
+                    it = concretise(rnd, rnd.choice(cands))
+                else:
+                    continue
+                it[what] = val
+                items.append(it)
+                nsweep += 1
+        c.extra["ambient_x_path_sweep_runs"] = nsweep
         ev = record_events(items, work, name="cli", script="cli.py")
         judge(c, prop, ev, work, "cli", module="TraceCli", cfg="TraceCli.cfg", extra_states=0,
               keyfn=lambda e, what: "C17|%s|flags=%s" % (what, ",".join(sorted(a for a in e["args"] if a.startswith("-") and len(a) <= 12 and a not in ("-v", "--vector")))))
